@@ -99,14 +99,28 @@ def extract(repo):
             ops.append((lit, opstr[opmap[v]]))
     if not kws or not ops:
         raise Shape("empty keyword or operator table")
-    return kws, ops
+    # post_process_block_comment: is the ` * ` decoration star stripped on every line (original) or only on
+    # continuation lines, index > 0 (repair of C09-F9)?  The scanner model has both variants.
+    pp = block(src, "fn post_process_block_comment(block_comment: &str) -> String", "post_process_block_comment")
+    m_enum = re.search(r"\.enumerate\(\)\s*\.map\(\|\((\w+), line\)\|", pp)
+    if m_enum and re.search(r"if " + m_enum.group(1) + r" > 0 && l\.starts_with\('\*'\) \{", pp):
+        star_cont_only = True
+    elif re.search(r"\.map\(\|line\| \{", pp) and re.search(r"if l\.starts_with\('\*'\) \{", pp):
+        star_cont_only = False
+    else:
+        raise Shape("post_process_block_comment: neither the `if l.starts_with('*')` nor the `if i > 0 && l.starts_with('*')` shape")
+    for anchor in ["let l = line.trim_start();", "l.chars().skip(1).collect::<String>().trim().to_string()", "l.trim_end().to_string()",
+                   ".filter(|line| !line.is_empty())", '.join(" ")', "block_comment\n        .split('\\n')"]:
+        if anchor.replace("\\n", "\n") not in pp and anchor not in pp:
+            raise Shape(f"post_process_block_comment: `{anchor}` not found")
+    return kws, ops, star_cont_only
 
 
 def lean_bytes(s):
     return "[" + ", ".join(str(b) for b in s.encode("utf-8")) + "]"
 
 
-def render(kws, ops):
+def render(kws, ops, star_cont_only=False):
     def table(name, rows, doc):
         out = f"/-- {doc} -/\ndef {name} : List (List UInt8 × List UInt8) := [\n"
         out += "\n".join(f"  ({lean_bytes(a)}, {lean_bytes(b)}){',' if i + 1 < len(rows) else ''}  -- {a} => {b}"
@@ -117,6 +131,8 @@ def render(kws, ops):
             + table("keywords", kws, "`#[token(..)]` entries translated by `translate_keyword_token`: (source literal, `Keyword::as_str`)")
             + "\n"
             + table("operators", ops, "`#[token(..)]` entries translated by `translate_op_token`: (source literal, `TokenOp::as_str`)")
+            + "\n/-- `post_process_block_comment` strips the decoration star only on continuation lines (index > 0) -/\n"
+            + f"def commentStarOnlyOnContinuationLines : Bool := {'true' if star_cont_only else 'false'}\n"
             + "\nend SamVerif.Generated.Keywords\n")
 
 
@@ -124,17 +140,17 @@ def main():
     repo = os.environ.get("SAMVERIF_REPO", "/repo")
     out = os.path.join(os.path.dirname(os.path.dirname(os.path.abspath(__file__))), "lean", "SamVerif", "Generated", "Keywords.lean")
     try:
-        kws, ops = extract(repo)
+        kws, ops, star = extract(repo)
     except Shape as e:
         print(f"c05_keywords: source shape changed: {e}", file=sys.stderr)
         sys.exit(2)
-    text = render(kws, ops)
+    text = render(kws, ops, star)
     os.makedirs(os.path.dirname(out), exist_ok=True)
     if not os.path.exists(out) or open(out, encoding="utf-8").read() != text:
         tmp = out + f".tmp{os.getpid()}"
         open(tmp, "w", encoding="utf-8").write(text)
         os.replace(tmp, out)
-    print(f"keywords={len(kws)} operators={len(ops)}")
+    print(f"keywords={len(kws)} operators={len(ops)} commentStarOnlyOnContinuationLines={star}")
 
 
 if __name__ == "__main__":
